@@ -82,6 +82,10 @@ LeavesWidths == {T("Text", <<x, "space", "left", 0>>, <<>>) : x \in TextIdsFull}
                 \cup {T("BigText", <<x, "thin3">>, <<>>) : x \in {"1", "12"}}
                 \cup {T("Button", <<"ab">>, <<>>), T("CheckBox", <<"cjk", 1>>, <<>>), T("SelectableIcon", <<"nlw", 1>>, <<>>),
                       T("Probe", <<3, "fixed", 3, 2, 1, "norow0">>, <<>>), T("Probe", <<6, "fixed", 2, 1, 1, "all">>, <<>>)}
+\* "progress": every percentage with and without the smoothing attribute.  The bar is drawn from three attribute runs (completed part,
+\* partial-block glyph, rest) whose lengths depend on where the percentage falls in the width: each boundary case (glyph in the first,
+\* last and second-to-last column, an empty completed part, a one-column rest) is reached by some percentage at some width
+LeavesProgress == {T("ProgressBar", <<cur, s>>, <<>>) : cur \in 0..100, s \in {0, 1}}
 Leaves == CASE LeafSet = "full" -> LeavesFull
             [] LeafSet = "widths" -> LeavesWidths
             [] LeafSet = "rep" -> LeavesRep
@@ -89,6 +93,7 @@ Leaves == CASE LeafSet = "full" -> LeavesFull
             [] LeafSet = "wt" -> LeavesWt
             [] LeafSet = "shards" -> LeavesShards
             [] LeafSet = "probe" -> ProbeLeaves \cup RealCursorLeaves
+            [] LeafSet = "progress" -> LeavesProgress
 
 (* ---- decoration option alphabets ---------------------------------------------------------- *)
 HAligns == {"left", "center", "right", "rel30"}
